@@ -130,7 +130,9 @@ func contractMentions(c *Contract, prop string) bool {
 func cmdCheck(args []string) int {
 	fs := flag.NewFlagSet("check", flag.ExitOnError)
 	tier := fs.String("tier", "", "quick|thorough")
+	baselineF := fs.Bool("baseline", false, "recompute the claimed obligation set of this property (writes sweep_claims.json); never used by registered checks")
 	fs.Parse(args)
+	baseline := *baselineF
 	if fs.NArg() != 1 {
 		fmt.Fprintln(os.Stderr, "usage: govc check [--tier quick|thorough] <property>")
 		return 2
@@ -166,9 +168,40 @@ func cmdCheck(args []string) int {
 	sort.Strings(missing)
 	kf := loadKnownFindings()
 	fns := propertyFuncs(p, prop)
+	isSweep := false
+	if roots, ok := sweepRoots[prop]; ok {
+		isSweep = true
+		seenF := map[*ssa.Function]bool{}
+		for _, f := range fns {
+			seenF[f] = true
+		}
+		for _, f := range p.reachable(roots) {
+			if !seenF[f] {
+				seenF[f] = true
+				fns = append(fns, f)
+			}
+		}
+		sort.Slice(fns, func(i, j int) bool { return funcKey(fns[i]) < funcKey(fns[j]) })
+	}
+	claims := loadSweepClaims()
+	useClaims := false
+	var claimed map[string]bool
+	if cm, ok := claims.Unproven[prop]; ok && !baseline {
+		useClaims = true
+		claimed = map[string]bool{} // here: the set of obligations known NOT to discharge on the unchanged tree (skipped, reported as unverified)
+		for _, names := range cm {
+			for _, n := range names {
+				claimed[n] = true
+			}
+		}
+	}
+	_ = isSweep
 	dir, _ := os.MkdirTemp("/var/tmp", "govc-"+prop+"-")
 	defer os.RemoveAll(dir)
 	opts := SolveOpts{Dir: dir, QuickMs: 1500, FallbackS: 45, Prop: prop}
+	if baseline {
+		opts = SolveOpts{Dir: dir, QuickMs: 2500, FallbackS: 12, Prop: prop}
+	}
 	if *tier == "thorough" {
 		opts = SolveOpts{Dir: dir, QuickMs: 5000, FallbackS: 180, Thorough: true, Prop: prop}
 	}
@@ -185,13 +218,20 @@ func cmdCheck(args []string) int {
 			r := runs[i]
 			tg := time.Now()
 			x := newExecLocked(p, fn)
+			if _, ok := sweepRoots[prop]; ok {
+				x.sweepTags = []string{prop}
+			}
 			r.x = x
 			r.err = runLocked(x)
 			r.genSec = time.Since(tg).Seconds()
 			if r.err != nil {
 				return
 			}
-			r.results, r.vacuous = x.SolveFiltered(opts)
+			o2 := opts
+			if useClaims {
+				o2.Skip = claimed
+			}
+			r.results, r.vacuous = x.SolveFiltered(o2)
 		}(i, fn)
 	}
 	wg.Wait()
@@ -213,6 +253,10 @@ func cmdCheck(args []string) int {
 	var violations []string
 	var knownLines []string
 	var funcsUnder []string
+	unclaimed := map[string]int{}
+	var unclaimedNames []string
+	notDischarged := map[string][]string{}
+	newClaims := map[string][]string{}
 	uncontracted := map[string]int{}
 	assumed := map[string]int{}
 	notes := map[string]int{}
@@ -282,11 +326,19 @@ func cmdCheck(args []string) int {
 				}
 				continue
 			}
+			if useClaims && claimed[o.Name] && o.KFKey == "" && kf.lookup(prop, o) == nil {
+				unclaimed[r.key]++
+				unclaimedNames = append(unclaimedNames, o.Name)
+				continue
+			}
 			total++
 			solverSec += or.Sec
 			if or.Status == "unsat" {
 				discharged++
 				byBackend[or.Solver]++
+				if or.Sec < 12 {
+					newClaims[r.key] = append(newClaims[r.key], o.Name)
+				}
 				if len(samples) < 400 {
 					samples = append(samples, sample{o.Name, o.Class, o.Text, o.Pos, or.Solver, round3(or.Sec), "discharged"})
 				}
@@ -298,6 +350,7 @@ func cmdCheck(args []string) int {
 				continue
 			}
 			viol(o.Name, violationBody(prop, r, or), or.Status == "sat")
+			notDischarged[r.key] = append(notDischarged[r.key], o.Name)
 			samples = append(samples, sample{o.Name, o.Class, o.Text, o.Pos, or.Solver, round3(or.Sec), "FAILED:" + or.Status})
 		}
 	}
@@ -321,6 +374,23 @@ func cmdCheck(args []string) int {
 				viol(pk.o.Name, violationBody(prop, pk.r, pk.or)+"\nThe known finding "+pk.f.Key+" is listed, but its recorded input no longer reproduces on the real code:\n"+out, pk.or.Status == "sat")
 			}
 		}
+	}
+	if baseline {
+		if claims.Unproven == nil {
+			claims.Unproven = map[string]map[string][]string{}
+		}
+		claims.Unproven[prop] = notDischarged
+		data, _ := json.MarshalIndent(claims, "", " ")
+		os.WriteFile(filepath.Join(verifDir(), "sweep_claims.json"), data, 0o644)
+		n := 0
+		for _, v := range newClaims {
+			n += len(v)
+		}
+		fmt.Printf("govc: baseline for %s written: %d obligations discharged in %d functions; %d not discharged (recorded as unproven, never claimed)\n", prop, n, len(newClaims), len(violations))
+		for _, l := range violations {
+			fmt.Println("  unclaimed:", l)
+		}
+		return 0
 	}
 	if total == 0 && len(violations) == 0 {
 		viol("no-obligations", "No obligation was generated for property "+prop+": nothing is proved.\n", false)
@@ -375,6 +445,8 @@ func cmdCheck(args []string) int {
 		"solver_time_s":            round3(solverSec),
 		"samples":                  samples,
 		"known_findings":           knownLines,
+		"unproven_obligations_per_function": unclaimed,
+		"unproven_obligations":               unclaimedNames,
 		"known_findings_replayed_on_real_code": kfReplayed,
 		"load_s":                   round3(p.LoadSec),
 		"contract_files":           p.Cons.Files,
